@@ -39,6 +39,7 @@ func cmdFuncs(args []string) {
 	alloc := fs.String("alloc", "", "alloc bound expression")
 	verbose := fs.Bool("v", false, "print discharged obligations too")
 	pinv := fs.String("pinv", "", "param invariant: <type string>=<expr over $p>")
+	ctx := fs.String("ctx", "", "verify against the contract that this package (import path) declares for the function: its environment model")
 	fs.Parse(args)
 	t0 := time.Now()
 	depsDir := "/verif/gcv/deps"
@@ -69,7 +70,7 @@ func cmdFuncs(args []string) {
 	for _, n := range names {
 		fn := eng.AllFuncs[n]
 		t1 := time.Now()
-		vo := VerifyOpts{SafetyOnly: *safety, AllocBound: *alloc, NoFrame: *safety}
+		vo := VerifyOpts{SafetyOnly: *safety, AllocBound: *alloc, NoFrame: *safety, CtxPkg: *ctx}
 		if *pinv != "" {
 			kv := strings.SplitN(*pinv, "=", 2)
 			vo.ParamInvs = map[string]string{kv[0]: kv[1]}
